@@ -17,6 +17,8 @@ def main():
     rc, out = sh("git -C /repo worktree add --detach %s HEAD" % WT)
     assert rc == 0, out
     sh("cd /verif/checker && go build -o ../bin/fpcheck .")
+    BIN = "/tmp/fpcheck.sweep.%d" % os.getpid()
+    shutil.copy("/verif/bin/fpcheck", BIN)
     total = 0
     try:
         for d in sorted(glob.glob(os.path.join(src, "*.diff"))):
@@ -34,7 +36,7 @@ def main():
                 continue
             scratch = tempfile.mkdtemp(prefix="fpbsweep.")
             shutil.copy("/verif/known_findings.txt", scratch)
-            rc, out = sh("/verif/bin/fpcheck -property all -tier quick -repo %s -verif %s" % (WT, scratch))
+            rc, out = sh(BIN + " -property all -tier quick -repo %s -verif %s" % (WT, scratch))
             hits = []
             for ln in out.split("\n"):
                 m = re.match(r"\s+rule=(\S+) construct=(.*?) verdict=(\S+)", ln)
@@ -48,6 +50,10 @@ def main():
             sys.stdout.flush()
     finally:
         sh("git -C /repo worktree remove --force %s" % WT)
+        try:
+            os.remove(BIN)
+        except OSError:
+            pass
     print("total alarms:", total)
 
 main()
